@@ -513,12 +513,19 @@ def public(case):
 
 def run_cases(ctx, res, cases, hist, correspond=True):
     checks, info = [], []
+    overflows = 0
     for case in cases:
+        if overflows >= 2:
+            # stuck contenders keep spinning in the background after an overflow: stop here, the
+            # violation is already recorded
+            res.extra['stopped_after_overflows'] = overflows
+            break
         d = ctx.scratch('c15')
         try:
             out = execute(case, d)
         finally:
             shutil.rmtree(d, ignore_errors=True)
+        overflows += 1 if out['overflow'] else 0
         n = len(case['progs'])
         bad = monitor(case, out)
         for sig, desc in bad:
